@@ -89,7 +89,10 @@ func tryReplay(p *Prog, cfg *PropConfig, r *SolveResult, root, repo, scratch str
 		if !strings.HasPrefix(r.Obl.Name, rs.Match) {
 			continue
 		}
-		model := modelValues(r.Output)
+		if r.Values == "" {
+			evalScalars(r)
+		}
+		model := valueMap(r.Values)
 		out, failed, err := runReplayTest(repo, root, scratch, rs, model)
 		hdr := fmt.Sprintf("replay test %s (%s, package %s), model passed through GOVC_MODEL\n", rs.Test, rs.File, rs.Pkg)
 		if err != nil {
@@ -101,4 +104,14 @@ func tryReplay(p *Prog, cfg *PropConfig, r *SolveResult, root, repo, scratch str
 		return hdr + "the oracle passes on the real code with this input (model not reproduced)\n" + truncate(out, 1000), false
 	}
 	return "", false
+}
+
+// valueMap parses a (get-value ...) answer into name -> value.
+func valueMap(out string) map[string]string {
+	vals := map[string]string{}
+	re := regexp.MustCompile(`\((\S+) (\(- [0-9.]+\)|true|false|[0-9.]+|\(/ [0-9.]+ [0-9.]+\)|\(- \(/ [0-9.]+ [0-9.]+\)\))\)`)
+	for _, m := range re.FindAllStringSubmatch(out, -1) {
+		vals[m[1]] = normNum(m[2])
+	}
+	return vals
 }
